@@ -220,7 +220,8 @@ class BaseInfoLine(MatchLine):
 
     out_pattern = "info({Attribute},{Value})."
 
-    pattern = re.compile(r"info\((?P<Attribute>[^,]+),(?P<Value>.+)\)\.")
+    # The value can be empty (e.g., an empty subtitle)
+    pattern = re.compile(r"info\((?P<Attribute>[^,]+),(?P<Value>.*)\)\.")
 
     def __init__(
         self,
